@@ -12,6 +12,9 @@ CHECKS = {
  "C15": ("Bounded exhaustive exploration of the real second-generation lexer, parser, header extraction and XML dumps: all byte strings up to length 3 (quick) / 4 (thorough) over a 55-symbol byte-extended alphabet, all concatenations of up to 2/3 lexeme fragments, all token sequences up to length 3/4 over 62 token kinds, a viable-prefix breadth-first search (prefixes the parser has not yet rejected, extended by every token) to depth 6/8 from the empty input and 4/6 further tokens from 13 non-initial contexts, 34 density/nesting pumps at up to 10/16 repetition counts and 9/12 limit probes. Oracle: no panic, crash or timeout in any state; inputs with an illegal lexeme (reference lexer) are rejected; legal lexemes never produce lexical errors; resource limits give exactly E102/E103; well-formed pump programs are accepted.",
          "Trusted: reference lexer (model/reflex.rs); debug assertions, bounds and overflow checks of the checked build as the memory-safety monitor. Uninitialised in-bounds reads are outside what an enumerator can observe. Not covered: inputs beyond the bounds.",
          "explicit-state breadth-first enumeration of inputs (viable-prefix search over token sequences) with a totality invariant and a reference lexer", "5 (C15)"),
+ "C16": ("Bounded exhaustive derivations of the model grammar: every leaf form, every operator x leaf form x operand slot, all grammar-conforming expression trees with up to 2 (quick) / 3 (thorough) operators, expressions in every context, all parent/slot/child statement combinations to nesting depth 2/3, all type terms to depth 2/3 in six positions, every declaration kind x flags x list shapes and pairs of declarations; each module in the canonical layout, two global layouts and every single-gap deviation (6 fillers); plus limit pumps and all 357 corpus files. Each text is parsed by both real parsers; the second generation's XML dump is checked for well-formedness, read back and compared with the model's own syntax tree, and the first generation's AST is compared with the same tree.",
+         "Trusted: the model grammar and renderer (model/grammar.rs, spaces/ast.rs). Abstractions stated in DESIGN.md 3.4. Not covered: derivations beyond the operator/nesting bounds.",
+         "exhaustive enumeration of grammar derivations up to a size bound, conformance of both implementations' trees against the generating model tree", "5 (C16), appendix B"),
 }
 
 NOT_YET = {}
